@@ -15,12 +15,20 @@ pub struct Counting;
 static LIVE: AtomicI64 = AtomicI64::new(0);
 static PEAK: AtomicI64 = AtomicI64::new(0);
 static PAUSES: AtomicU64 = AtomicU64::new(0);
+/// live bytes when the current exploration leg started: what the check itself holds (its work list) is not backlog
+static BASELINE: AtomicI64 = AtomicI64::new(0);
 const STEP: i64 = 1 << 20;
 const HIGH: i64 = 2 << 30;
 const LOW: i64 = 768 << 20;
 
 thread_local! {
 	static PENDING: Cell<i64> = const { Cell::new(0) };
+	/// set in the engines' worker threads: a leg started from inside a worker (nested exploration) leaves the baseline alone
+	static IS_WORKER: Cell<bool> = const { Cell::new(false) };
+}
+
+pub fn mark_worker() {
+	let _ = IS_WORKER.try_with(|w| w.set(true));
 }
 
 #[inline]
@@ -66,15 +74,27 @@ pub fn flush() {
 	});
 }
 
-/// Pause the calling worker while the process holds more than `HIGH` live bytes (at most 20 s).
+/// Called by the engines before the workers of a leg start: the bytes live at that moment (work lists, tables built by
+/// the check) are the leg's baseline, and back-pressure looks at the growth above it only. Without this, a check whose
+/// own work list exceeds `HIGH` would pause every worker for the full 20 s on every chunk.
+pub fn leg_starts() {
+	if IS_WORKER.try_with(|w| w.get()).unwrap_or(true) {
+		return;
+	}
+	flush();
+	BASELINE.store(LIVE.load(Ordering::Relaxed).max(0), Ordering::Relaxed);
+}
+
+/// Pause the calling worker while the process holds more than `HIGH` live bytes above the leg's baseline (at most 20 s).
 pub fn backpressure() {
-	if LIVE.load(Ordering::Relaxed) < HIGH {
+	let base = BASELINE.load(Ordering::Relaxed);
+	if LIVE.load(Ordering::Relaxed) - base < HIGH {
 		return;
 	}
 	flush();
 	PAUSES.fetch_add(1, Ordering::Relaxed);
 	let t0 = std::time::Instant::now();
-	while LIVE.load(Ordering::Relaxed) > LOW && t0.elapsed() < std::time::Duration::from_secs(20) {
+	while LIVE.load(Ordering::Relaxed) - base > LOW && t0.elapsed() < std::time::Duration::from_secs(20) {
 		std::thread::sleep(std::time::Duration::from_millis(2));
 	}
 }
